@@ -367,13 +367,38 @@ pub fn deflate_reset_case(t: &mut Tape, ctx: &Ctx, o: &mut Outcome) {
     let mut po = PlanOpts::standard();
     po.allow_dict = true;
     po.max_len = 100_000;
-    let plan1 = gen_plan(t, &po);
+    let mut plan1 = gen_plan(t, &po);
     let mut plan2 = gen_plan(t, &po);
+    let directed = t.bool();
+    if directed {
+        // directed class: the history slides a small window, the continuation is a short low-entropy
+        // stream with a hash-preserving flush in the middle (stale window/hash state would show)
+        plan1.cfg.wbits = t.pick(&[9u32, 9, 10, 11]);
+        if plan1.cfg.wrap != Wrap::Zlib && plan1.cfg.wbits == 8 {
+            plan1.cfg.wbits = 9;
+        }
+        let w = 1usize << plan1.cfg.wbits;
+        let seed = t.u16() as u64;
+        let mut x = crate::tape::Xs::new(seed ^ 0xC14);
+        let a1 = 2 + x.below(200);
+        // just past one slide: the valid data then ends near w-262.., stale bytes of the history lie above
+        plan1.data = (0..2 * w - 262 + x.below(400)).map(|_| b'a' + x.below(a1) as u8).collect();
+        plan1.dict = None;
+        plan1.ops = vec![DefOp::Deflate { in_chunk: plan1.data.len(), out_chunk: 1 << 16, flush: Z_NO_FLUSH }];
+        plan1.cycles = 1;
+        let a2 = 2 + x.below(3);
+        plan2.data = (0..w + x.below(w)).map(|_| b'a' + x.below(a2) as u8).collect();
+        let lo = w - 262;
+        let cut = lo + x.below(plan2.data.len() - lo);
+        plan2.ops = vec![DefOp::Deflate { in_chunk: cut, out_chunk: 1 << 16, flush: t.pick(&[Z_SYNC_FLUSH, Z_PARTIAL_FLUSH, Z_BLOCK, Z_NO_FLUSH]) }];
+        plan2.cycles = 1;
+        plan2.finish_out = vec![1 << 16];
+    }
     plan2.cfg = plan1.cfg;
     plan2.gz = plan1.gz.clone();
     plan2.dict = None;
     let ops1 = flat_ops(&plan1, 200);
-    let stop1 = t.below(ops1.len() + 2);
+    let stop1 = if directed { ops1.len() } else { t.below(ops1.len() + 2) };
     let finish1 = t.bool();
     let ops2 = flat_ops(&plan2, 200);
     let seed = t.u16() as u64;
